@@ -388,7 +388,7 @@ Section Agree.
       eval_cond w bnd c = Ok b /\ (forall more', tv_true (eval_pred ((env ++ more) ++ more') p) = b) /\
       pred_bad p = false.
   Proof.
-    induction c as [op l r|ct it|p IHp q IHq|p IHp q IHq|p _|x]; intros io st env Hinv He Hs Hd;
+    induction c as [op l r|ct it|p IHp q IHq|p IHp q IHq|p _|x|cs0 it0]; intros io st env Hinv He Hs Hd;
       cbn [cond_shape cond_ok] in Hs, Hd; try discriminate.
     - (* comparison *)
       destruct l as [v ch| | |]; try discriminate.
@@ -484,7 +484,7 @@ Lemma tcond_safe c : forall io st p st',
   cond_shape sc sel root c = true -> tcond sc vars sel root io st c = ROk p st' ->
   forall p0, p = Some p0 -> pred_bad p0 = false.
 Proof.
-  induction c as [op l r|ct it|p1 IH1 q1 IH2|p1 IH1 q1 IH2|p1 _|x]; intros io st p st' Hc H;
+  induction c as [op l r|ct it|p1 IH1 q1 IH2|p1 IH1 q1 IH2|p1 _|x|cs0 it0]; intros io st p st' Hc H;
     cbn [cond_shape] in Hc; try discriminate.
   - destruct l as [v ch| | |]; try discriminate. apply andb_true_iff in Hc. destruct Hc as [Hc _].
     apply andb_true_iff in Hc. destruct Hc as [Hc1 Hc2].
@@ -547,7 +547,7 @@ Qed.
 Lemma tcond_relonly c : forall io st p st',
   cond_shape sc sel root c = true -> relonly st -> tcond sc vars sel root io st c = ROk p st' -> relonly st'.
 Proof.
-  induction c as [op l r|ct it|p1 IH1 q1 IH2|p1 IH1 q1 IH2|p1 _|x]; intros io st p st' Hc Hr H;
+  induction c as [op l r|ct it|p1 IH1 q1 IH2|p1 IH1 q1 IH2|p1 _|x|cs0 it0]; intros io st p st' Hc Hr H;
     cbn [cond_shape] in Hc; try discriminate.
   - destruct l as [v ch| | |]; try discriminate. apply andb_true_iff in Hc. destruct Hc as [Hc _].
     apply andb_true_iff in Hc. destruct Hc as [Hc1 Hc2].
@@ -694,7 +694,7 @@ Proof. intros H1 H2. now rewrite (agree sc q w s H1 H2). Qed.
 (* ---------- node kinds the translator does not know are never answered ---------- *)
 Lemma tcond_not sc vars sel root c : has_not c = true -> forall io st p st', tcond sc vars sel root io st c <> ROk p st'.
 Proof.
-  induction c as [op l r|ct it|p1 IH1 q1 IH2|p1 IH1 q1 IH2|p1 _|x]; intros Hn io st p st'; simpl in Hn; try discriminate.
+  induction c as [op l r|ct it|p1 IH1 q1 IH2|p1 IH1 q1 IH2|p1 _|x|cs0 it0]; intros Hn io st p st'; simpl in Hn; try discriminate.
   - cbn [tcond]. destruct (tcond sc vars sel root io st p1) as [a st1| | |] eqn:E1; try discriminate.
     destruct (has_not p1) eqn:N1; [exfalso; eapply IH1; eauto|]. simpl in Hn.
     destruct (tcond sc vars sel root io st1 q1) as [b st2| | |] eqn:E2; try discriminate. exfalso; eapply IH2; eauto.
@@ -715,9 +715,9 @@ Definition atom_query (q : query) (c : cond) : Prop := q_cond q = Some c.
 
 (* C07-a: an attribute of a variable other than the selected one, compared with a literal *)
 Theorem rejects_othervar sc q op v ch lit :
-  q_setof q = false -> atom_query q (CCmp op (OAttr v ch) (OLit lit)) -> v <> q_sel q -> translate sc q = TReject.
+  atom_query q (CCmp op (OAttr v ch) (OLit lit)) -> v <> q_sel q -> translate sc q = TReject.
 Proof.
-  intros Hso Hc Hv. unfold translate. rewrite Hso, Hc. destruct (assoc (q_sel q) (q_vars q)) as [root|]; auto.
+  intros Hc Hv. unfold translate. destruct (q_setof q); [reflexivity|]. rewrite Hc. destruct (assoc (q_sel q) (q_vars q)) as [root|]; auto.
   cbn [tcond]. unfold tcmp.
   assert (E : teqjoin sc (q_vars q) root false jm0 op (OAttr v ch) (OLit lit) = None) by (destruct op; reflexivity).
   rewrite E. destruct (negb (rel_check sc (q_vars q) (eqne op) (OAttr v ch) (OLit lit))); auto.
@@ -729,31 +729,31 @@ Proof. intros Hv. unfold tattr. apply Z.eqb_neq in Hv. now rewrite Hv. Qed.
 
 (* C07-c: a relationship-valued operand against a plain literal, whatever the operator *)
 Theorem rejects_rel_literal sc q op v ch lit :
-  q_setof q = false -> atom_query q (CCmp op (OAttr v ch) (OLit lit)) -> is_rel sc (q_vars q) (OAttr v ch) = true ->
+  atom_query q (CCmp op (OAttr v ch) (OLit lit)) -> is_rel sc (q_vars q) (OAttr v ch) = true ->
   translate sc q = TReject.
 Proof.
-  intros Hso Hc Hr. unfold translate. rewrite Hso, Hc. destruct (assoc (q_sel q) (q_vars q)) as [root|]; auto.
+  intros Hc Hr. unfold translate. destruct (q_setof q); [reflexivity|]. rewrite Hc. destruct (assoc (q_sel q) (q_vars q)) as [root|]; auto.
   cbn [tcond]. unfold tcmp.
   assert (E : teqjoin sc (q_vars q) root false jm0 op (OAttr v ch) (OLit lit) = None) by (destruct op; reflexivity).
   rewrite E. unfold rel_check. rewrite Hr. cbn [is_rel is_var negb orb andb]. reflexivity.
 Qed.
 Theorem rejects_rel_in_list sc q v ch cs :
-  q_setof q = false -> atom_query q (CContains (OList cs) (OAttr v ch)) -> is_rel sc (q_vars q) (OAttr v ch) = true ->
+  atom_query q (CContains (OList cs) (OAttr v ch)) -> is_rel sc (q_vars q) (OAttr v ch) = true ->
   translate sc q = TReject.
 Proof.
-  intros Hso Hc Hr. unfold translate. rewrite Hso, Hc. destruct (assoc (q_sel q) (q_vars q)) as [root|]; auto.
+  intros Hc Hr. unfold translate. destruct (q_setof q); [reflexivity|]. rewrite Hc. destruct (assoc (q_sel q) (q_vars q)) as [root|]; auto.
   cbn [tcond]. unfold tcontains. rewrite Hr. cbn [is_rel orb]. reflexivity.
 Qed.
 
 (* C07-g: an attribute-equality join of two different variables whose join target is the selected type itself *)
 Theorem rejects_selfjoin sc q v1 ch1 v2 ch2 root a1 a2 t1 t2 :
-  q_setof q = false -> atom_query q (CCmp OEq (OAttr v1 ch1) (OAttr v2 ch2)) -> v1 <> v2 ->
+  atom_query q (CCmp OEq (OAttr v1 ch1) (OAttr v2 ch2)) -> v1 <> v2 ->
   assoc (q_sel q) (q_vars q) = Some root -> assoc v1 (q_vars q) = Some root -> assoc v2 (q_vars q) = Some root ->
   last_of ch1 = Some a1 -> last_of ch2 = Some a2 ->
   field_kind sc root a1 = Some (FRel t1) -> field_kind sc root a2 = Some (FRel t2) ->
   translate sc q = TReject.
 Proof.
-  intros Hso Hc Hv Hs H1 H2 L1 L2 K1 K2. unfold translate. rewrite Hso, Hc, Hs. cbn [tcond]. unfold tcmp, teqjoin.
+  intros Hc Hv Hs H1 H2 L1 L2 K1 K2. unfold translate. destruct (q_setof q); [reflexivity|]. rewrite Hc, Hs. cbn [tcond]. unfold tcmp, teqjoin.
   apply Z.eqb_neq in Hv. rewrite Hv, H1, H2, L1, L2, K1, K2. rewrite Z.eqb_refl. cbn [orb].
   unfold related. rewrite Z.eqb_refl. reflexivity.
 Qed.
@@ -808,11 +808,11 @@ Qed.
 Lemma tcond_total c : cond_shape sc sel root c = true ->
   forall io st, exists p st', tcond sc vars sel root io st c = ROk (Some p) st'.
 Proof.
-  induction c as [op l r|ct it|p1 IH1 q1 IH2|p1 IH1 q1 IH2|p1 _|x]; intros Hc io st; cbn [cond_shape] in Hc; try discriminate.
+  induction c as [op l r|ct it|p1 IH1 q1 IH2|p1 IH1 q1 IH2|p1 _|x|cs0 it0]; intros Hc io st; cbn [cond_shape] in Hc; try discriminate.
   - destruct l as [v ch| | |]; try discriminate. apply andb_true_iff in Hc. destruct Hc as [Hc Hn].
     apply andb_true_iff in Hc. destruct Hc as [Hc1 Hc2].
     cbn [tcond]. unfold tcmp. rewrite (teqjoin_none sc sel root vars io st op v ch r Hc1 Hc2), (rel_check_shape sc sel root vars Hvars _ _ _ Hc1 Hc2).
-    cbn [negb]. destruct (toperand_total _ st Hc1) as [a [st1 [T1 A1]]]. rewrite T1.
+    cbn [negb named_var]. destruct (toperand_total _ st Hc1) as [a [st1 [T1 A1]]]. rewrite T1.
     destruct (toperand_total _ st1 Hc2) as [b [st2 [T2 A2]]]. rewrite T2.
     destruct (mk_cmp_total op a b r A1 A2 Hn) as [p M].
     { destruct r; try discriminate; eauto. }
